@@ -188,7 +188,7 @@ class ResendRule(BaseRule):
             self.sites.append(Site("merge", node, s, {"into": recv, "what": a}))
             return [Out("normal", s, UNK)]
         if isinstance(f, ast.Attribute) and f.attr == "lower" and recv is not None:
-            return ret(AV("unk", tags=frozenset(recv.tags | {"lower"}), none=False))
+            return ret(AV("unk", tags=frozenset(recv.tags | {"lower"}), none=False, sym=f"lower({recv.sym})" if recv.sym else None))
         if isinstance(f, ast.Attribute) and f.attr == "get" and recv is not None and recv.kind == "dict" and pos and pos[0].kind == "const":
             sl = dslots(recv)
             k = pos[0].val
@@ -206,7 +206,9 @@ class ResendRule(BaseRule):
             return ret(AV("unk", tags=frozenset(a.tags | {t}), truth=a.truth, none=False))
         if t == "self.is_same_host":
             a = pos[0] if pos else UNK
-            return ret(AV("unk", sym="pool_same_host", tags=frozenset({"arg:" + x for x in a.tags})))
+            s = st.copy()
+            s.ts["pool_same_host_arg"] = tuple(sorted(a.tags))
+            return [Out("normal", s, AV("unk", sym="pool_same_host", tags=frozenset({"arg:" + x for x in a.tags})))]
         if t == "self._get_conn":
             s = st.copy()
             s.ts["got_conn"] = True
@@ -256,8 +258,47 @@ class ResendRule(BaseRule):
             return True
         return None
 
+    def comprehension(self, it, st, node):
+        """A one-generator comprehension over header names, evaluated on the one symbolic header: a tuple value holding the
+        element when all its conditions hold, the empty tuple otherwise (so `[n for n in h if n.lower() in unsafe]` followed
+        by a loop over the result is the same strip as the direct loop)."""
+        if isinstance(node, ast.DictComp) or len(node.generators) != 1:
+            return None
+        g = node.generators[0]
+        vals, raises = it.eval(st, g.iter)
+        out = []
+        for s0, itv in vals:
+            s = s0.copy()
+            it.assign(s, g.target, AV("unk", tags=frozenset({"iter:" + x for x in itv.tags} | {"header-name"}), sym="hname"))
+            cur = [(s, True)]
+            for cond in g.ifs:
+                nxt = []
+                for s1, alive in cur:
+                    if not alive:
+                        nxt.append((s1, False))
+                        continue
+                    res, r = it.truth_fork(s1, cond)
+                    raises += r
+                    nxt += [(s2, b) for s2, b in res]
+                cur = nxt
+            for s1, alive in cur:
+                if not alive:
+                    out.append((s1, AV("tuple", (), truth=False, none=False)))
+                    continue
+                ev, r = it.eval(s1, node.elt)
+                raises += r
+                out += [(s2, AV("tuple", (e,), truth=True, none=False)) for s2, e in ev]
+        return out, raises
+
     def for_iter(self, it, st, stmt, itv):
         # header-strip loop: iterate once symbolically over the header names
+        if itv.kind == "tuple":
+            if not itv.val or st.ts.get(("iterated", stmt.lineno)):
+                return [(st.copy(), False)]
+            s = st.copy()
+            it.assign(s, stmt.target, itv.val[0])
+            s.ts[("iterated", stmt.lineno)] = True
+            return [(s, True)]
         s = st.copy()
         it.assign(s, stmt.target, AV("unk", tags=frozenset({"iter:" + x for x in itv.tags} | {"header-name"}), sym="hname"))
         s.ts["loops"] = s.ts.get("loops", 0) + 1
@@ -297,6 +338,10 @@ def hot_helpers(m, cls, driver):
                 return True
         return False
     hot = {n_ for n_, f in methods.items() if n_ not in NEVER_INLINE and direct(f)}
+    # header-handling helpers (copy / strip / merge of a mapping handed in) are part of what the rules look at, too
+    def touches_headers(f):
+        return any(isinstance(x, ast.Call) and isinstance(x.func, ast.Attribute) and x.func.attr in ("copy", "pop", "update", "discard", "_prepare_for_method_change") for x in ast.walk(f.node))
+    hot |= {n_ for n_, f in methods.items() if n_ not in NEVER_INLINE and n_.startswith("_") and not n_.startswith("__") and touches_headers(f)}
     changed = True
     while changed:
         changed = False
